@@ -329,6 +329,26 @@ def r14_14(run, model):
         run.ob("R14.14", "link_cores|rejects a Main package without main", False, site(SEP, lc.node["sp"]), "no `== \"main\"` test that returns Err found in link_cores",
                witness="fn mian() {..}: the Go output calls an undeclared main0")
         return
+    # the entry point is called as `main0()`: both pipelines also refuse a main with parameters or type parameters
+    def sig_check(f, rel):
+        txt = S.norm_ws(run.facts.text(rel, f.body["sp"]))
+        if re.search(r"params\.is_empty\(\)", txt) and '"main"' in txt:
+            return True
+        for c in S.walk(f.body):
+            if c["k"] in ("Call", "MethodCall") and S.callee_name(c):
+                for rel2 in (SEP, PIPE):
+                    for g in model.find_fns(S.callee_name(c), rel2):
+                        if g.body is not None:
+                            t2 = S.norm_ws(run.facts.text(rel2, g.body["sp"]))
+                            if re.search(r"params\.is_empty\(\)", t2) and '"main"' in t2:
+                                return True
+        return False
+    for f, rel in [(lc, SEP)] + [(g, PIPE) for g in whole]:
+        ok = sig_check(f, rel)
+        run.ob("R14.14", f"{f.name}|refuses an entry point that takes parameters", ok, site(rel, f.node["sp"]),
+               "the parameter list of main is examined" if ok else "only the existence of a function named main is tested",
+               witness="fn main(argc: int32) -> int32 is accepted and the wrapper calls `main0()` without an argument; fn main[T](x: T) is never "
+                       "instantiated: the whole output is `func main() { main0() }` with main0 undeclared")
     for f in whole:
         got = has_check(f, PIPE)
         run.ob("R14.14", f"{f.name}|rejects a Main package without main like link does", got is not None, site(PIPE, (got or f.node)["sp"]),
